@@ -170,6 +170,47 @@ def run(ck):
     stores = [n for n in ast.walk(ir) if isinstance(n, ast.Attribute) and isinstance(n.ctx, ast.Store)]
     ck.ob('MPT-whole-residue', mol.loc(ir), len(body) == 2 and u(body[0]) == 'residue_graph = graph_utils.make_residue_graph(self)' and isinstance(body[1], ast.Return) and not stores,
           'iter_residues recomputes the residues from the current node attributes on every call (no cache that residue edits could leave stale)', key='MPT-whole-residue|no-cache')
+    # reading a per-residue sequence back: one value per residue, in residue order, nothing skipped
+    sfr = mod.func('sequence_from_residues')
+    ck.analysed(mod, sfr)
+    lp = [l for l in sfr.body if isinstance(l, ast.For)]
+    ys = [n for n in ast.walk(sfr) if isinstance(n, (ast.Yield, ast.YieldFrom))]
+    ok = len(lp) == 1 and u(lp[0].iter) == 'molecule.iter_residues()' and len(ys) == 1 and not any(isinstance(n, (ast.If, ast.Continue, ast.Break, ast.Return)) for n in ast.walk(lp[0]))
+    if ok:
+        env_ = {}
+        for st_ in lp[0].body:
+            if isinstance(st_, ast.Assign) and isinstance(st_.targets[0], ast.Name):
+                env_[st_.targets[0].id] = flow.subst(st_.value, env_)
+        ok = u(flow.subst(ys[0].value, env_)) == 'molecule.nodes[{}[0]].get(attribute, default)'.format(u(lp[0].target))
+    ck.ob('PROV-read-back', mod.loc(sfr), ok, 'sequence_from_residues yields exactly one value per residue of iter_residues(), unconditionally: the attribute of the residue\'s first atom '
+          '(or the default)', key='PROV-read-back|sequence_from_residues')
+    cda = mod.func('convert_dssp_annotation_to_martini')
+    ck.analysed(mod, cda)
+    calls = calls_with_env(cda, lambda c: call_name(c) == 'annotate_residues_from_sequence')
+    ok = len(calls) == 1
+    if ok:
+        c_, st_, cond_, env_ = calls[0]
+        args = [u(flow.subst(a, env_)) for a in c_.args]
+        ok = args == ['molecule', 'to_attribute', 'list(convert_dssp_to_martini(list(sequence_from_residues(molecule, from_attribute))))'] or \
+            args == ['molecule', 'to_attribute', 'list(convert_dssp_to_martini(dssp_sequence))']
+        ats = list(flow.atoms_of(cond_))
+        ok = ok and len(ats) == 1 and ats[0][0] == 'In' and ats[0][1] == 'None' and flow.equivalent(cond_, ('not', ('atom', ats[0])))[0]
+    rs_ = [st_ for st_, c2, e2 in stmts_with_env(cda, lambda s_: isinstance(s_, ast.Raise))]
+    ck.ob('PROV-read-back', mod.loc(cda), ok and len(rs_) == 1, 'the Martini classes are the translation of the whole per-residue DSSP sequence of the same molecule, written to the target '
+          'attribute exactly when every residue has an assignment; a partial assignment is an error', key='PROV-read-back|convert_annotation')
+    ad = mod.func('annotate_dssp')
+    ck.analysed(mod, ad)
+    calls = calls_with_env(ad, lambda c: call_name(c) == 'annotate_residues_from_sequence')
+    ok = len(calls) == 1
+    if ok:
+        c_, st_, cond_, env_ = calls[0]
+        args = [u(a) for a in c_.args]
+        sec = single_def(ad, 'secstructs')
+        cp = single_def(ad, 'clean_pos')
+        ok = args == ['molecule', 'attribute', 'secstructs'] and sec is not None and u(sec) == 'callable(system)' and cp is not None and \
+            u(cp) == 'molecule.subgraph(filter_minimal(molecule, selector=selector_has_position))' and 'system.add_molecule(clean_pos)' in u(ad)
+    ck.ob('PROV-read-back', mod.loc(ad), ok, 'annotate_dssp assigns the sequence computed for the positioned atoms of this very molecule to this molecule through '
+          'annotate_residues_from_sequence (whose length test turns a dropped residue into an error, not a shift)', key='PROV-read-back|annotate_dssp')
     # every consumer of "the k-th residue" uses the same residue order
     users = {}
     for name in ('annotate_residues_from_sequence', 'sequence_from_residues'):
